@@ -936,10 +936,17 @@ class ArgumentParser(ParserDeprecations, ActionsContainer, ArgumentLinking, argp
         path_fc = Path(path, mode="fc")
         check_overwrite(path_fc)
 
+        def write_files(files):
+            with open(os.devnull, "w") as f:  # what the file encoding can not write fails before any file is opened
+                for _, content in files:
+                    f.write(content)
+            for write_path, content in files:
+                with open(write_path, "w") as f:
+                    f.write(content)
+
         if not multifile:
             dump = self.dump(cfg, **dump_kwargs)  # type: ignore[arg-type]
-            with open(path_fc.absolute, "w") as f:  # only opened after a successful dump
-                f.write(dump)
+            write_files([(path_fc.absolute, dump)])  # only opened after a successful dump
 
         else:
             cfg = cfg.clone()
@@ -980,9 +987,7 @@ class ArgumentParser(ParserDeprecations, ActionsContainer, ArgumentLinking, argp
                 save_paths(cfg)
             dump_kwargs["skip_validation"] = True
             pending_writes.append((path_fc.absolute, self.dump(cfg, **dump_kwargs)))  # type: ignore[arg-type]
-            for write_path, content in pending_writes:
-                with open(write_path, "w") as f:
-                    f.write(content)
+            write_files(pending_writes)
 
     ## Methods related to defaults ##
 
